@@ -363,6 +363,85 @@ theorem C20_failed_fetch_then_new_exchange (cached : Data) (e e' : Exchange) (er
   rw [key.1, C20_rekey_only_when_empty]
   exact key.2
 
+/-- `FetchData` has no failure of its own: it fails exactly when the pool is empty and the key
+    exchange fails, with the exchange's error. (Its body is pinned row by row in `SkelC20`; the
+    direct oracle of harness c20 counts a failed `FetchData` whatever its cause.) -/
+theorem C20_fetch_fails_iff_exchange_fails (cached : Data) (e : Exchange) (err : ExErr) :
+    (fetchData cached e).out = .error err ↔
+      cached.cookies = [] ∧ (exchangeKeys cached e).2 = some err := by
+  unfold fetchData fetchWith
+  cases hc : cached.cookies with
+  | cons _ _ => simp
+  | nil =>
+    simp only [List.isEmpty_nil, if_true, true_and]
+    cases hx : exchangeKeys cached e with
+    | mk c r =>
+      cases r with
+      | none => simp
+      | some err' => simp
+
+/-- The function at the pinned commit is the variant without a check. -/
+theorem C20_postCheck_none (cached : Data) (e : Exchange) :
+    fetchDataPostCheck (fun _ => none) cached e = fetchData cached e := by
+  unfold fetchDataPostCheck fetchData fetchWith
+  split
+  · cases hx : exchangeKeys cached e with
+    | mk c r => cases r <;> rfl
+  · rfl
+
+/-- Why a check placed in `FetchData` behind `exchangeKeys` breaks "a failed exchange leaves nothing
+    behind" (seeded C20-17), for EVERY such check and error value: if it refuses the data of an
+    exchange that issued at least two cookies, the call fails, yet the refused data stays cached with
+    its whole pool, and the next `FetchData` — whatever the peer would do — opens no connection
+    and hands out exactly the refused data. -/
+theorem C20_postCheck_after_store_refuted (refuse : Data → Option ExErr) (cached d : Data)
+    (e e' : Exchange) (err : ExErr) (c1 c2 : List Byte) (rest : List (List Byte))
+    (hempty : cached.cookies = []) (hex : exchangeKeys cached e = (d, none))
+    (hck : d.cookies = c1 :: c2 :: rest) (hre : refuse d = some err) :
+    let r1 := fetchDataPostCheck refuse cached e
+    r1.out = .error err ∧ r1.cached = d ∧
+    (fetchDataPostCheck refuse r1.cached e').exchanged = false ∧
+    (fetchDataPostCheck refuse r1.cached e').out = .ok d := by
+  have h1 : fetchDataPostCheck refuse cached e = ⟨d, .error err, true⟩ := by
+    unfold fetchDataPostCheck
+    simp only [hempty, List.isEmpty_nil, if_true, hex, hre]
+  simp only [h1]
+  refine ⟨trivial, trivial, ?_, ?_⟩ <;>
+  · unfold fetchDataPostCheck
+    simp [hck]
+
+/-- a peer nobody can connect to -/
+def exBad0 : Exchange where
+  dialOk := false
+  host := []
+  alpn := ""
+  stream := []
+  c2s := []
+  s2c := []
+
+/-- a key-exchange server that names the NTP server "ntp" and issues two cookies -/
+def exNamed : Exchange where
+  dialOk := true
+  host := [49]
+  alpn := "ntske/1"
+  stream := [[128, 4, 0, 2, 0, 15, 0, 6, 0, 3, 110, 116, 112, 0, 5, 0, 1, 7], [0, 5, 0, 1, 8, 128, 0, 0, 0]]
+  c2s := [1]
+  s2c := [2]
+
+/-- the refusal of seeded C20-17 on that exchange: attempt 1 fails, attempt 2 (against a peer that
+    would fail) "succeeds" without a connection and hands out the refused server name -/
+example :
+    let refuse : Data → Option ExErr := fun d => if d.server = [110, 116, 112] then some .noNtske else none
+    let r1 := fetchDataPostCheck refuse {} exNamed
+    r1.out = .error .noNtske ∧ r1.cached.cookies = [[7], [8]] ∧
+    (fetchDataPostCheck refuse r1.cached exBad0).exchanged = false ∧
+    (fetchDataPostCheck refuse r1.cached exBad0).out =
+      .ok { c2s := [1], s2c := [2], server := [110, 116, 112], port := 123, cookies := [[7], [8]], algo := 15 } ∧
+    -- the function as it is accepts the name and keeps handing it out
+    (fetchData {} exNamed).out =
+      .ok { c2s := [1], s2c := [2], server := [110, 116, 112], port := 123, cookies := [[7], [8]], algo := 15 } := by
+  decide
+
 /-- a peer that issues a cookie and then an error record (the F8 input) -/
 def exBad : Exchange where
   dialOk := true
